@@ -355,7 +355,12 @@ package cache
 // touched since. Hence acquire returns what is proved at the one Put (release: pool-invariant) and of New
 // (newManager$1: pool-new): a blank item.
 //@ macro blankItem(e) = e.exp == 0 && e.status == 0 && e.body == nil && e.ctype == nil && e.headers == nil
-//@ func (*manager).acquire assumed pure
+//@ func @sync.(*Pool).Get(p) assumed pure allocates
+//@   ensures pool-type: typeis(result, *item) && unbox(result, *item) != nil
+//@   ensures pool-invariant: blankItem(unbox(result, *item))
+// acquire is CHECKED against its body (session 5; it used to be assumed): the type assertion cannot fail and the item is blank.
+//@ func (*manager).acquire
+//@   pure
 //@   ensures pooled-item-is-blank: result != nil && blankItem(result)
 //@ func newManager$1
 //@   ensures pool-new: typeis(result, *item) && unbox(result, *item) != nil && blankItem(unbox(result, *item))
